@@ -813,7 +813,7 @@ def taintCmd (args : List String) : String :=
       | ["C", us, reads] => some (.constraint (lst us) (lst reads))
       | ["X", rs] => some (.other (lst rs))
       | _ => none)
-    let d : Taint.Def := { facts := facts, params := lst ps, exported := lst ex, underscore := lst us, fuel := fuel.toNat?.getD 0 }
+    let d : Taint.Def := { facts := facts, params := lst ps, exported := lst ex, underscore := lst us, fuel := max (fuel.toNat?.getD 0) (Taint.closureFuel (Taint.edges facts ++ Taint.consEdges facts) ((Taint.consEdges facts).length + 1)) }
     let showPairs (l : List (Nat × Nat)) : String :=
       let u := l.eraseDups
       if u.isEmpty then "-" else ",".intercalate (u.map (fun e => s!"{e.1}>{e.2}"))
